@@ -44,9 +44,11 @@ Definition parse_num (ty : bool * N) (tok : list N) : option (bool * N) :=
   let '(signed, bits) := ty in
   let '(neg, ds) :=
     match tok with
-    | 43 :: t => (false, t)                              (* '+' *)
-    | 45 :: t => if signed then (true, t) else (false, tok)   (* '-' is a sign only for signed types *)
-    | _ => (false, tok)
+    | c :: t =>
+        if c =? 43 then (false, t)                              (* '+' *)
+        else if (c =? 45) && signed then (true, t)              (* '-' is a sign only for signed types *)
+        else (false, tok)
+    | [] => (false, tok)
     end in
   match ds with
   | [] => None                                            (* Empty, or a lone sign *)
@@ -87,7 +89,7 @@ Fixpoint split_ws (bs cur : list N) : list (list N) :=
 (* BufRead::lines on raw bytes: split after every \n, drop it and one preceding
    \r; a final unterminated line is kept as it is *)
 Definition strip_cr_rev (cur : list N) : list N :=
-  match cur with 13 :: r => rev r | _ => rev cur end.
+  match cur with b :: r => if b =? 13 then rev r else rev cur | [] => [] end.
 Fixpoint split_lines (bs cur : list N) : list (list N) :=
   match bs with
   | [] => match cur with [] => [] | _ => [rev cur] end
@@ -207,8 +209,9 @@ Definition bin_record (checked : bool) (buf : list N) : rec_result :=
     else
     match byte_at buf (base + 1) with
     | None => RPanic SITE_BIN_DELETED_INDEX
-    | Some 0 => RSkip                                     (* removed record *)
-    | Some _ =>
+    | Some first =>
+      if first =? 0 then RSkip                            (* removed record *)
+      else
         match bin_syls (N.to_nat len) buf bin_syl_offset with
         | None => RErr
         | Some syls =>
@@ -265,15 +268,14 @@ Definition load_uhash := load_uhash_with true text_lifetime_ty.
 (* ------------------------------------------------------------------ *)
 (* printers (the inverse direction) *)
 
-Fixpoint dec_digits (fuel : nat) (n : N) (acc : list N) : list N :=
+(* decimal digits of n, least significant first *)
+Fixpoint dec_rev (fuel : nat) (n : N) : list N :=
   match fuel with
-  | O => acc
-  | S k =>
-      let acc' := (48 + n mod 10) :: acc in
-      if n <? 10 then acc' else dec_digits k (n / 10) acc'
+  | O => []
+  | S k => (48 + n mod 10) :: (if n <? 10 then [] else dec_rev k (n / 10))
   end.
-(* decimal digits of n; log2 n + 1 rounds always suffice *)
-Definition dec_N (n : N) : list N := dec_digits (S (N.to_nat (N.log2 n))) n [].
+(* decimal representation of n; log2 n + 1 rounds always suffice *)
+Definition dec_N (n : N) : list N := rev (dec_rev (S (N.to_nat (N.log2 n))) n).
 Definition dec_Z (z : Z) : list N :=
   match z with
   | Zneg p => 45 :: dec_N (Npos p)
